@@ -2918,7 +2918,14 @@ primary_expression
         if ($1.type == EXPRESSION_TYPE_INTEGER &&
             $3.type == EXPRESSION_TYPE_INTEGER)
         {
-          if ($3.value.integer != 0)
+          if ($3.value.integer == -1 && $1.value.integer == INT64_MIN)
+          {
+            // Undefined at run time too (see OP_INT_DIV), dividing here would
+            // raise SIGFPE in the compiler.
+            $$.value.integer = YR_UNDEFINED;
+            $$.type = EXPRESSION_TYPE_INTEGER;
+          }
+          else if ($3.value.integer != 0)
           {
             $$.value.integer = OPERATION(/, $1.value.integer, $3.value.integer);
             $$.type = EXPRESSION_TYPE_INTEGER;
@@ -2942,7 +2949,14 @@ primary_expression
 
         fail_if_error(yr_parser_emit(yyscanner, OP_MOD, NULL));
 
-        if ($3.value.integer != 0)
+        if ($3.value.integer == -1 && $1.value.integer == INT64_MIN)
+        {
+          // Undefined at run time too (see OP_MOD), computing it here would
+          // raise SIGFPE in the compiler.
+          $$.value.integer = YR_UNDEFINED;
+          $$.type = EXPRESSION_TYPE_INTEGER;
+        }
+        else if ($3.value.integer != 0)
         {
           $$.value.integer = OPERATION(%, $1.value.integer, $3.value.integer);
           $$.type = EXPRESSION_TYPE_INTEGER;
